@@ -833,6 +833,8 @@ class CompressedBlockColumn(Column):
     usually terrible.
     """
 
+    _default = emptybytes
+
     def __init__(self, level=3, blocksize=32, module="zlib"):
         """
         :param level: the compression level to use.
@@ -1203,6 +1205,9 @@ class PickleColumn(WrappedColumn):
     overhead of pickling and unpickling.
     """
 
+    # What a reader returns for a document without a value
+    _default = None
+
     class Writer(WrappedColumnWriter):
         def __repr__(self):
             return "<PickleWriter>"
@@ -1238,6 +1243,10 @@ class PickleColumn(WrappedColumn):
 class ListColumn(WrappedColumn):
     def stores_lists(self):
         return True
+
+    def default_value(self, reverse=False):
+        # What a reader returns for a document without a value
+        return []
 
 
 class ListColumnReader(ColumnReader):
